@@ -749,6 +749,8 @@ class C13(Prop):
             if op == 'pow':
                 a = r.choice([0, 1, 2, 3, 10, 255, a % 1000])
                 b = r.choice([0, 1, 2, 3, 8 * w - 1, 8 * w, 5]) if kindo != 'intbad' else r.choice([-1, -2])
+                if ow != '-' and b >= (1 << (8 * ow)):
+                    b = (1 << (8 * ow)) - 1
             x, y = (w, a), (ow, b)
             if r.random() < 0.4:
                 if op == 'pow' and ow == '-':
@@ -791,6 +793,9 @@ class C13(Prop):
     def compare(self, case, py, mo, stats):
         bump(stats, 'ops', case[1] if case[0] == 'uop' else case[0])
         bump(stats, 'errs', 'err' if mo.get('r') == 'err' else 'ok')
+        if py.get('p.r') == 'badoperand':
+            bump(stats, 'errs', 'skipped:operand-not-constructible')
+            return []
         if py.get('p.r') != mo.get('r'):
             return [F('prop', show(case), py.get('p.r'), mo.get('r'))]
         return []
